@@ -44,6 +44,15 @@ CHECKS = {
    technique="deterministic simulation: seeded tx-pool operation histories on a real node with head changes and reorganisations, fake clock, simulator-controlled timing of the pool's reset (yield point, adopted loop goroutine); invariants recomputed independently at every rest point",
    text="At every rest point (pool caught up with the chain head) the pending set is recomputed from Pending()/Content() and the head state: per sender a gap-free nonce run from the chain nonce, each transaction affordable and within the block gas limit, one transaction per (sender, nonce) across pending and queue, virtual nonce = chain nonce + pending count; a same-nonce replacement is accepted only with the configured bump; per-account and pool-wide limits hold for senders never used as local, judged where the pool runs its limiter (for the submitting accounts after an accepted submission, for everyone after a head change); after a reorganisation every dropped transaction that is still valid is pooled again (judged under roomy limits).",
    note="Trusted: synctest, harness. Every public pool method holds pool.mu for its whole body, so caller interleavings are exactly the listed orders; the one asynchronous actor (the loop's head-event handler) is scheduled explicitly. The miner worker is not part of this check. One known finding is filtered by its specific signature."),
+
+ "C10": dict(engine="storesim", category="exploration", design_ref="§3 C10",
+   technique="deterministic simulation: seeded model-based operation histories over the real trie on a simulated disk (commit / flush / reopen / crash before flush / cache eviction), independent reference Merkle-Patricia root as oracle, proofs altered and truncated in flight",
+   text="Every Hash/Commit root must equal the reference root of the model content (own hex-prefix, RLP, Keccak), gets and iteration must return exactly the live content, a trie reopened from a committed or flushed root must reproduce it, a root that was never flushed must fail to open with a missing-node error (never wrong data), and a proof must verify to the model value or to absence while no single-byte alteration or omission of a proof node verifies to a different value. DeriveSha lists are compared with the same reference.",
+   note="Trusted: harness, reference MPT/RLP/Keccak (x/crypto). Stored node blobs are not corrupted on purpose (the trie trusts its database; the statement makes no claim under disk corruption). Proofs of an empty trie (no nodes) are skipped."),
+ "C09": dict(engine="storesim", category="exploration", design_ref="§3 C09",
+   technique="deterministic simulation: seeded model-based StateDB histories with snapshots/reverts, commit, cold reopen from the simulated disk, crash before flush and Copy; map model with deep-copy snapshot stack and independent reference state root; cross-history root comparison",
+   text="After every operation every getter (existence, emptiness, balance, nonce, code, code hash/size, storage slots, self-destruct flag, refund, log count) must equal the model, so a revert that restores anything inexactly shows at the very next step; every root (IntermediateRoot, Commit) must equal the reference Merkle-Patricia root of the content with the account RLP encoded independently; a state reopened cold from the disk or taken by Copy must read identically and stay independent; an unflushed root must not open after a crash; a second, permuted and revert-padded history reaching the same content must give the same root.",
+   note="Trusted: harness, reference model and root. One finalise flag per history (mixing empty-account deletion on/off inside one history makes the outcome depend on the protocol's touched set, which is not content)."),
 }
 
 def main():
@@ -61,6 +70,7 @@ def main():
         {"name": "simdisk", "path": "sim/simdisk", "serves_properties": ["C04"], "kind_free_text": "simulated disk: write log, crash images (prefixes), injected write failures, ValueSize scaling"},
         {"name": "chainsim", "path": "sim/chainsim", "serves_properties": [p for p in sorted(CHECKS) if p in ("C01","C02","C03","C04","C05","C06","C13","C15","C16")], "kind_free_text": "real core.BlockChain nodes on simulated disks in a synctest bubble; universe built by the repo's block builder; stub gossip"},
         {"name": "schedsim", "path": "sim/schedsim", "serves_properties": [p for p in sorted(CHECKS) if p in ("C13","C14","C15","C16","C19")], "kind_free_text": "gate scheduler: real goroutines parked on channels, one released at a time from the plan, synctest.Wait as quiescence barrier"},
+        {"name": "storesim", "path": "sim/storesim", "serves_properties": [p for p in sorted(CHECKS) if p in ("C09","C10","C20")], "kind_free_text": "model-based operation histories over trie / StateDB / key files on the simulated disk"},
         {"name": "refmodel", "path": "sim/refmodel", "serves_properties": sorted(CHECKS), "kind_free_text": "independent reference models (RLP, Merkle-Patricia root and traversal, ...)"},
      ],
      "checks": [],
